@@ -246,18 +246,21 @@ Definition hex4 (a b c d : N) : N := 256 * hex2 a b + hex2 c d.
 Fixpoint has_rbrace (l : list N) : bool :=
   match l with [] => false | c :: r => (c =? 125) || has_rbrace r end.
 
-(* str literal (also with the u prefix), not raw *)
-Fixpoint py_text (l : list N) : pyres :=
+(* not raw.  t = true: str literal (also with the u prefix); t = false: bytes literal (only ASCII
+   characters; u, U, N are not escapes; octal values are reduced modulo 256 as CPython 3.12
+   does, with a warning) *)
+Fixpoint py_lit (t : bool) (l : list N) : pyres :=
   match l with
   | [] => PyValue []
   | c :: r =>
-    if negb (c =? 92) then pcons c (py_text r) else
+    if negb t && (128 <=? c) then PyReject else
+    if negb (c =? 92) then pcons c (py_lit t r) else
     match r with
     | [] => PyNotBody
     | e :: r1 =>
-      if e =? 10 then py_text r1 else
+      if e =? 10 then py_lit t r1 else
       match simple_escape e with
-      | Some v => pcons v (py_text r1)
+      | Some v => pcons v (py_lit t r1)
       | None =>
         if is_octd e then
           match r1 with
@@ -265,86 +268,49 @@ Fixpoint py_text (l : list N) : pyres :=
             if is_octd d2 then
               match r2 with
               | d3 :: r3 =>
-                if is_octd d3 then pcons (64 * (e - 48) + 8 * (d2 - 48) + (d3 - 48)) (py_text r3)
-                else pcons (8 * (e - 48) + (d2 - 48)) (py_text r2)
-              | [] => pcons (8 * (e - 48) + (d2 - 48)) (py_text r2)
+                if is_octd d3 then
+                  let v := 64 * (e - 48) + 8 * (d2 - 48) + (d3 - 48) in
+                  pcons (if t then v else v mod 256) (py_lit t r3)
+                else pcons (8 * (e - 48) + (d2 - 48)) (py_lit t r2)
+              | [] => pcons (8 * (e - 48) + (d2 - 48)) (py_lit t r2)
               end
-            else pcons (e - 48) (py_text r1)
-          | [] => pcons (e - 48) (py_text r1)
+            else pcons (e - 48) (py_lit t r1)
+          | [] => pcons (e - 48) (py_lit t r1)
           end
         else if e =? 120 then
           match r1 with
           | h1 :: h2 :: r2 =>
-            if is_hexd h1 && is_hexd h2 then pcons (hex2 h1 h2) (py_text r2) else PyReject
+            if is_hexd h1 && is_hexd h2 then pcons (hex2 h1 h2) (py_lit t r2) else PyReject
           | _ => PyReject
           end
-        else if e =? 117 then
+        else if t && (e =? 117) then
           match r1 with
           | h1 :: h2 :: h3 :: h4 :: r2 =>
             if is_hexd h1 && is_hexd h2 && is_hexd h3 && is_hexd h4
-            then pcons (hex4 h1 h2 h3 h4) (py_text r2) else PyReject
+            then pcons (hex4 h1 h2 h3 h4) (py_lit t r2) else PyReject
           | _ => PyReject
           end
-        else if e =? 85 then
+        else if t && (e =? 85) then
           match r1 with
           | h1 :: h2 :: h3 :: h4 :: h5 :: h6 :: h7 :: h8 :: r2 =>
             if is_hexd h1 && is_hexd h2 && is_hexd h3 && is_hexd h4
                && is_hexd h5 && is_hexd h6 && is_hexd h7 && is_hexd h8
             then let v := 65536 * hex4 h1 h2 h3 h4 + hex4 h5 h6 h7 h8 in
-                 if v <? 1114112 then pcons v (py_text r2) else PyReject
+                 if v <? 1114112 then pcons v (py_lit t r2) else PyReject
             else PyReject
           | _ => PyReject
           end
-        else if e =? 78 then
+        else if t && (e =? 78) then
           match r1 with
           | b :: r2 => if (b =? 123) && has_rbrace r2 then PyNamed else PyReject
           | [] => PyReject
           end
-        else pcons 92 (pcons e (py_text r1))     (* unknown escape: both characters stay *)
+        else pcons 92 (py_lit t r)     (* unknown escape: the backslash stays, e is an ordinary character *)
       end
     end
   end.
-
-(* bytes literal, not raw: only ASCII characters; no u, U, N escapes; octal values are
-   reduced modulo 256 (CPython 3.12, with a warning) *)
-Fixpoint py_bytes (l : list N) : pyres :=
-  match l with
-  | [] => PyValue []
-  | c :: r =>
-    if 128 <=? c then PyReject else
-    if negb (c =? 92) then pcons c (py_bytes r) else
-    match r with
-    | [] => PyNotBody
-    | e :: r1 =>
-      if e =? 10 then py_bytes r1 else
-      match simple_escape e with
-      | Some v => pcons v (py_bytes r1)
-      | None =>
-        if is_octd e then
-          match r1 with
-          | d2 :: r2 =>
-            if is_octd d2 then
-              match r2 with
-              | d3 :: r3 =>
-                if is_octd d3
-                then pcons ((64 * (e - 48) + 8 * (d2 - 48) + (d3 - 48)) mod 256) (py_bytes r3)
-                else pcons (8 * (e - 48) + (d2 - 48)) (py_bytes r2)
-              | [] => pcons (8 * (e - 48) + (d2 - 48)) (py_bytes r2)
-              end
-            else pcons (e - 48) (py_bytes r1)
-          | [] => pcons (e - 48) (py_bytes r1)
-          end
-        else if e =? 120 then
-          match r1 with
-          | h1 :: h2 :: r2 =>
-            if is_hexd h1 && is_hexd h2 then pcons (hex2 h1 h2) (py_bytes r2) else PyReject
-          | _ => PyReject
-          end
-        else if 128 <=? e then PyReject
-        else pcons 92 (pcons e (py_bytes r1))
-      end
-    end
-  end.
+Definition py_text := py_lit true.
+Definition py_bytes := py_lit false.
 
 (* raw literals: every character stays; a backslash still protects the character after it *)
 Fixpoint py_raw (ascii_only : bool) (l : list N) : pyres :=
@@ -718,5 +684,5 @@ Definition py_object (l : lit) : option pyobj :=
 
 (* a reference codec for the extracted runner (identity with a marker byte) *)
 Definition id_codec : codec :=
-  {| ext_compress := fun a d => if a =? 3 then None else Some (a :: d);
+  {| ext_compress := fun a d => if (a =? 1) || (a =? 2) then Some (a :: d) else None;
      ext_decompress := fun a c => match c with x :: d => if x =? a then Some d else None | [] => None end |}.
